@@ -606,3 +606,19 @@ def run(repo, rep, tier):  # noqa: F811 -- round 7: type-level helper contracts 
 _ADDR7TP = " Borrowed: R02.8 / R02.9 (the type predicates and type-level helpers, interpreted from their own source over the catalogue types and a reference table, answer as the dispatch model and the documentation say)."
 EXPLANATION += _ADDR7TP
 LEVEL_TEXT += _ADDR7TP
+
+
+_run_before_r7n = run
+
+
+def run(repo, rep, tier):  # noqa: F811 -- round-7 remedies / borrowings
+    _run_before_r7n(repo, rep, tier)
+    if getattr(rep, "borrowed", False):
+        return
+    from ..core import round7 as _r7n
+    _r7n.type_refs_not_by_bare_name(repo, rep, "R17.15")
+
+
+_ADD_R7N = ' R17.15: a type reference spliced into generated code is rendered through get_type_name_identifier / type_name or bound with ensure_object_imported, never as `<type>.__name__` (a free variable for NewType / subclass / Annotated / local members); `__name__` as part of a helper identifier is accepted.'
+EXPLANATION += _ADD_R7N
+LEVEL_TEXT += _ADD_R7N
